@@ -58,6 +58,19 @@ pub fn kind_docs() -> Vec<Value> {
         json!({"l♭":["s", 1, null, true, x(), "!e", 2.5]}),         // 12 scalars directly inside a flattened array
         json!({"g♭":[["a","!b"],["^c"],[1,"d",null,["e"]]]}),       // 13 arrays of arrays of strings in a flattened field
         json!({"r♭":[[{"_id":"x","t♭":["p","q"],"n":1}],[2]]}),     // 14 object with its own flattened field inside an inner array
+        json!({"l♭":[{"_id":"x","v":"C:\\dir\\"}, {"_id":"y","k\\":"a}{\"b\\"}]}), // 15 strings and keys ending in a backslash, braces and quotes in strings
+    ]
+}
+
+/// documents whose strings stress the pack scanner and the block serialiser: trailing backslashes (also in a
+/// key), braces and quotes inside strings, non-ASCII text
+pub fn content_docs() -> Vec<Value> {
+    vec![
+        json!({"l♭":[{"_id":"x","v":"C:\\dir\\"}, y()]}),
+        json!({"l♭":[{"_id":"x","v":"a}{\"b\\"}, y()], "s":"}\\"}),
+        json!({"l♭":[{"_id":"x","v":"é✓\\", "k\\":"v"}]}),
+        json!({"l♭":[y()]}),
+        json!({"l♭":[{"_id":"x","v":"\\\\"}, {"_id":"z","v":"\"\\\""}]}),
     ]
 }
 
@@ -313,6 +326,37 @@ pub fn tie_scenario(name: &str, depth: usize, extra: &[Op]) -> Scenario {
     }
 }
 
+/// Replica 0 emptied the flattened array (the field stays, as []) in one or two commits while replica 1
+/// inserted an element; with two commits the EMPTY version is the winning leaf of the descriptor.
+pub fn emptied_scenario(name: &str, steps: usize, depth: usize, extra: &[Op]) -> Scenario {
+    let docs = vec![
+        json!({"l♭":[x(), y()]}),
+        json!({"l♭":[y()]}),
+        json!({"l♭":[]}),
+        json!({"l♭":[x(), y(), z()]}),
+        json!({"l♭":[z(), x(), y()]}),
+        json!({"l♭":[{"_id":"w","v":1}]}),
+    ];
+    let mut prologue = vec![Op::Upd(0, 0), Op::Commit(0, 0), Op::Sync(1, 0)];
+    if steps > 1 {
+        prologue.extend_from_slice(&[Op::Upd(0, 1), Op::Commit(0, 0)]);
+    }
+    prologue.extend_from_slice(&[Op::Upd(0, 2), Op::Commit(0, 0), Op::Upd(1, 3), Op::Commit(1, 0)]);
+    let mut alphabet = vec![Op::Sync(1, 0), Op::Sync(0, 1), Op::Commit(0, 0), Op::Commit(1, 0), Op::Upd(1, 4), Op::Upd(0, 5), Op::Reopen(0), Op::Resolve(1, 0, 0), Op::Resolve(1, 0, 1)];
+    alphabet.extend_from_slice(extra);
+    Scenario {
+        name: name.to_string(),
+        nrep: 2,
+        menu: menu(docs),
+        prologue,
+        alphabet,
+        key_opts: KeyOpts::default(),
+        max_depth: depth,
+        track: false,
+        order: None,
+    }
+}
+
 /// Replica 0 removed the flattened array from the document (its descriptor object is deleted), replica 1
 /// edited the array once or twice meanwhile (so the deletion is the losing or a tying leaf), then received
 /// replica 0's block: the descriptor is in conflict between a live leaf and a deletion leaf.
@@ -560,6 +604,8 @@ pub fn cross_scenarios(thorough: bool) -> Vec<Scenario> {
         relay_scenario("x-trio-relay", depth, &[]),
         array_deleted_scenario("x-pair-array-deleted-vs-edited-once", 1, depth, &[]),
         array_deleted_scenario("x-pair-array-deleted-vs-edited-twice", 2, depth, &[]),
+        emptied_scenario("x-pair-array-emptied-in-one-step-vs-insert", 1, depth, &[]),
+        emptied_scenario("x-pair-array-emptied-in-two-steps-vs-insert", 2, depth, &[]),
     ];
     base.into_iter()
         .map(|mut sc| {
